@@ -46,7 +46,7 @@ def vdec(l, i=0):
     raise ValueError(l[i:i + 5])
 
 
-RESERVED = ('keys', 'get', 'items', 'pop', 'update', 'copy', 'clear', 'set', 'values', 'setdefault', 'iterkeys', 'itervalues', 'iteritems', 'has_key')
+RESERVED = ('keys', 'get', 'items', 'pop', 'update', 'copy', 'clear', 'set', 'values', 'setdefault', 'iterkeys', 'itervalues', 'iteritems', 'listkeys', 'listvalues', 'listitems')
 NONE = -777777        # stands for a None leaf in the model's integer vocabulary
 
 
@@ -353,7 +353,7 @@ def spec_check(ops):
         if t in ('set', 'setdefault') and simple:
             comps = k.split('.')
             for ci, comp in enumerate(comps):
-                if comp in ('keys', 'get', 'items', 'pop', 'update', 'copy', 'clear', 'set', 'values', 'setdefault') or comp.startswith('__'):
+                if comp in RESERVED or comp.startswith('__'):
                     pre = '.'.join(comps[:ci + 1])
                     try:
                         present = pre in d
@@ -405,6 +405,19 @@ def spec_check(ops):
     for k in list(c.keys())[:3]:
         try:
             c[k] = 12345
+        except Exception:
+            pass
+    def empty_levels(o, pre=''):
+        for k, v in dict.items(o):
+            if isinstance(v, dotdict_base):
+                if len(v) == 0:
+                    yield pre + k
+                else:
+                    for x in empty_levels(v, pre + k + '.'):
+                        yield x
+    for lv in list(empty_levels(c))[:4]:                 # an empty level is a level of its own in the copy, too
+        try:
+            c[lv + '.zz'] = 1
         except Exception:
             pass
     if canon(d) != snap:
@@ -487,6 +500,16 @@ def run(ctx):
     # (b) operation sequences
     nseq = 3000 if ctx.thorough else 400
     seqs = [gen_ops(rng, rng.randint(3, 30)) if rng.random() < 0.8 else gen_scenario(rng) for _ in range(nseq)]
+    # scripted sequences, run with every seed: the shapes earlier rounds of seeded changes needed (so that catching them does not hang on a seed)
+    seqs = [
+        [('set', 'a.n', NONE), ('setdefault', 'a.n', 5), ('get', 'a.n'), ('in', 'a.n'), ('setdefault', 'a.n', ('plain', {'x': 1})), ('keys',)],
+        [('set', 'm.c', 3), ('set', 'm.items.c', 4), ('set', 'm.keys', 5), ('set', 'get.x', 1), ('setdefault', 'pop.x', 1), ('set', 'm.set', 2),
+         ('set', 'm.iteritems.x', 2), ('set', 'listkeys', 2), ('keys',)],
+        [('set', 'a.b.c', 1), ('get', 'a.b.c..'), ('in', 'a.b.c..'), ('get', 'a.b.c.zz...'), ('pop', 'a.b.zz', None), ('pop', 'a.b.zz', 104), ('pop', 'a.b.c', None), ('keys',)],
+        [('set', 'l', [('dot', {'a': 1}), ('dot', {'b': 2})]), ('set', 'l[1]', 7), ('keys',), ('set', 'l[0]', NONE), ('keys',), ('get', 'l')],
+        [('set', '_id', 4), ('set', 'a._m.x', 5), ('get', '_id'), ('get', 'a._m.x'), ('get', 'a._m'), ('keys',)],
+        [('set', 'e', ('plain', {})), ('set', 'a.b', 1), ('del', 'a.b'), ('keys',), ('set', 'e.x', 2), ('set', 'a.y', 3), ('keys',)],
+    ] + seqs
     cases = []
     for ops in seqs:
         flat = [0, len(ops)]
